@@ -368,6 +368,7 @@ def gen_custom(rng: random.Random, d: dict, focus: dict) -> list[dict]:
     ref = d['ref']
     for i in range(n):
         tag = rng.choice([None, None, 'ALLELEID'])
+        id_type = rng.choice(['String', 'Integer']) if tag and focus.get('int_id_tags') else 'String'
         recs = []
         for t in d['targetons']:
             for _ in range(rng.choice(focus.get('n_custom', [0, 1, 2, 3, 5]))):
@@ -377,14 +378,15 @@ def gen_custom(rng: random.Random, d: dict, focus: dict) -> list[dict]:
                     continue
                 r['id'] = f'v{i}_{len(recs)}' if rng.random() < 0.8 else None
                 if tag:
-                    r['info'] = {tag: str(1000 + len(recs))}
+                    # identifiers from an INFO tag: text, or a number (an Integer tag, as ClinVar's ALLELEID - 0 is an identifier like any other)
+                    r['info'] = {tag: str(rng.choice([0, 0, 7, 1000 + len(recs)]) if id_type == 'Integer' else 1000 + len(recs))}
                 recs.append(r)
         if rng.random() < 0.2 and d.get('extra_contigs'):
             c2 = next(iter(d['extra_contigs']))
             recs.append({'pos': 5, 'ref': d['extra_contigs'][c2][4].upper(), 'alts': ['A' if d['extra_contigs'][c2][4].upper() != 'A' else 'C'],
                          'contig': c2, 'id': 'other', 'info': ({tag: '9'} if tag else {}), 'kind': 'snv'})
         recs.sort(key=lambda r: (r.get('contig', d['contig']) != d['contig'], r['pos']))
-        vcfs.append({'alias': f'al{i}', 'id_tag': tag, 'records': recs})
+        vcfs.append({'alias': f'al{i}', 'id_tag': tag, 'records': recs, **({'id_type': id_type} if tag and id_type != 'String' else {})})
     return vcfs
 
 
